@@ -449,6 +449,53 @@ def _beta(node):
     return _Beta().visit(node)
 
 
+def _used_once_in_order(expr, params, p) -> bool:
+    """In expression `expr` every parameter of `params` is read at most once, at an unconditionally evaluated position (not under
+    and/or/if-else/lambda/comprehension), nothing with a call precedes the reads, and the reads occur in parameter order - so replacing
+    the parameters by the argument expressions evaluates those in the order the call did."""
+    seq = []
+    ok = [True]
+
+    def go(e, cond):
+        if isinstance(e, (ast.Lambda, ast.ListComp, ast.SetComp, ast.DictComp, ast.GeneratorExp)):
+            if any(isinstance(x, ast.Name) and x.id in params for x in ast.walk(e)):
+                ok[0] = False
+            return
+        if isinstance(e, ast.Name):
+            if e.id in params:
+                if cond:
+                    ok[0] = False
+                seq.append(e.id)
+            return
+        if isinstance(e, ast.BoolOp):
+            for k, v in enumerate(e.values):
+                go(v, cond or k > 0)
+            return
+        if isinstance(e, ast.IfExp):
+            go(e.test, cond)
+            go(e.body, True)
+            go(e.orelse, True)
+            return
+        if isinstance(e, ast.Call):
+            for ch in [e.func] + list(e.args) + [k.value for k in e.keywords]:
+                go(ch, cond)
+            seq.append("<call>")
+            return
+        for ch in ast.iter_child_nodes(e):
+            if isinstance(ch, ast.expr):
+                go(ch, cond)
+    go(expr, False)
+    if not ok[0] or seq.count(p) != 1:
+        return False
+    reads = [x for x in seq if x != "<call>"]
+    if len(set(reads)) != len(reads):
+        return False
+    if "<call>" in seq[: max(i for i, x in enumerate(seq) if x in params) + 1]:
+        return False
+    order = [params.index(x) for x in reads]
+    return order == sorted(order)
+
+
 def _returns(body):
     out = []
     for s in body:
@@ -712,7 +759,7 @@ class Inliner:
                 out[v] = next(iter(real))
         return out
 
-    def _bind(self, callee, call, recv, kind, expr_mode=False):
+    def _bind(self, callee, call, recv, kind, expr_mode=False, expr_body=None):
         """-> (prefix assignments, rename mapping) or None if the call cannot be bound simply."""
         a = callee.args
         if a.vararg or a.kwarg or a.posonlyargs and False:
@@ -758,6 +805,9 @@ class Inliner:
                 mapping[p] = v                      # a function literal passed as an argument: its call sites are beta-reduced (_beta)
             elif expr_mode and p not in assigned and _pure_expr(v):
                 mapping[p] = v                      # a pure argument can be substituted wherever the parameter is read
+            elif expr_mode and p not in assigned and expr_body is not None and _used_once_in_order(expr_body, list(vals), p):
+                mapping[p] = v                      # an argument with calls: substituted when the parameter is read exactly once, unconditionally,
+                #                                     and the parameters are read in the order the arguments were evaluated
             else:
                 prefix.append(_loc(ast.Assign(targets=[ast.Name(id=p, ctx=ast.Store())], value=copy.deepcopy(v)), call))
         return prefix, mapping
@@ -1064,7 +1114,7 @@ class Inliner:
                 e = _single_expr(callee)
                 if e is None:
                     return n
-                b = self._bind(callee, n, recv, kind, expr_mode=True)
+                b = self._bind(callee, n, recv, kind, expr_mode=True, expr_body=e)
                 if b is None or b[0]:
                     return n
                 e = copy.deepcopy(e)
